@@ -86,7 +86,7 @@ def shards(tier):
 def floors(tier):
     f = {"cases": 8000, "validator_for_checked": 8000, "validate_checked": 8000, "explicit_cls_checked": 2000, "cli_checked": 100, "cli_explicit_validator_checked": 50, "cli_several_instances_checked": 40,
          "warnings_checked": 1000, "histories_with_registrations": 30, "registrations": 80, "registrations_under_odd_version_names": 40, "distinguished_pairs": 6,
-         "model_confirms_disagreement": 6, "missing_dollar_schema_in_dict_subclass": 500}
+         "model_confirms_disagreement": 6, "missing_dollar_schema_in_dict_subclass": 500, "non_dict_mapping_schemas": 3000}
     for s in ("exact#", "exact", "unknown-uri", "non-uri", "missing", "boolean-schema"):
         f["spelling:" + s] = 200
     return f
@@ -249,6 +249,30 @@ def check_dispatch(rec, rng, registered, history, scratch, future=()):
             want_d = selected if selected is not None else (impl.CLS[3] if kind == "missing" else latest)
             if got_d is not want_d:
                 rec.violation("validator_for-default", case, "with default=Draft3Validator selects %s, expected %s" % (got_d.__name__, want_d.__name__))
+            # --- the same schema held in a mapping that is no dict (a read-only view, a chain of layers, a UserDict): what it
+            #     declares is what it declares
+            if rng.random() < 0.3:
+                import collections
+                import types as _types
+                for label, mk in (("MappingProxyType", lambda: _types.MappingProxyType(dict(schema))), ("ChainMap", lambda: collections.ChainMap(dict(schema))),
+                                  ("ChainMap(layered)", lambda: collections.ChainMap({k: v for k, v in schema.items() if k == "$schema"},
+                                                                                     {k: v for k, v in schema.items() if k != "$schema"})),
+                                  ("UserDict", lambda: collections.UserDict(schema))):
+                    rec.count("non_dict_mapping_schemas")
+                    try:
+                        with warnings.catch_warnings(record=True) as w3:
+                            warnings.simplefilter("always")
+                            g1 = validators.validator_for(mk())
+                            g2 = validators.validator_for(mk(), default=impl.CLS[3])
+                    except Exception as e:
+                        rec.violation("validator_for-raised", dict(case, schema_class=label), "%s: %s" % (type(e).__name__, str(e)[:100]))
+                        break
+                    dep3 = [x for x in w3 if issubclass(x.category, DeprecationWarning)]
+                    if g1 is not want_cls or g2 is not want_d or bool(dep3) != warn_expected:
+                        rec.violation("validator_for-on-mapping", dict(case, schema_class=label),
+                                      "the schema held in a %s: validator_for -> %s (a dict: %s), with default=Draft3Validator -> %s (a dict: %s), %d deprecation warning(s)" % (
+                                          label, g1.__name__, want_cls.__name__, g2.__name__, want_d.__name__, len(dep3)))
+                        break
             # --- a schema without $schema held in a dict subclass that answers for absent members (defaultdict,
             #     Counter, an auto-vivifying tree): asking it which draft it declares must neither invent a
             #     declaration nor write one into it
